@@ -1133,6 +1133,7 @@ func (p *pipe) Do(ctx context.Context, cmd Completed) (resp RedisResult) {
 	return resp
 
 queue:
+	verifPipeGap("do-put")
 	ch, err := p.queue.PutOne(ctx, cmd)
 	if err != nil {
 		p.decrWaits()
@@ -1898,6 +1899,7 @@ func (p *pipe) leaveSync(state int32) {
 		if p.decrWaitsAndIncrRecvsIfLast() {
 			return
 		}
+		verifPipeGap("do-bg-after")
 		p.background()
 	}
 	p.decrWaitsAndIncrRecvs()
